@@ -97,10 +97,10 @@ TEXT.update({
   "note": "headers after the deciding one (locked states) are NOT covered: two decodes through the state machine exceeded 30 GB / 23 min in CBMC; instantiated with a stub dictionary; reader wiring of flexible_decoding outside",
  },
  "C14": {
-  "engine": "K",
+  "engine": "K+M",
   "technique": "bounded model checking (Kani/CBMC) of Tag::from_str on every valid UTF-8 string of each length 0-12 against an independent recogniser, and of Display for Tag through the real core::fmt into a fixed sink",
   "level": "Parsing is decided for EVERY string of byte length 0, 7-12 (accept exactly the three forms with either hex case, reject all else, never panic); printing and print->parse identity for all 2^32 tags.",
-  "note": "selector syntax and dictionary keywords are not encoded (tag half of the property only; keyword side is C15)",
+  "note": "selector syntax and dictionary keywords are not encoded (tag half of the property only; keyword side is C15); keyword clause on Engine M: parse_tag resolves every text the dictionary knows as a keyword to the dictionary's tag (texts of 4-9 letters / digits, symbolic), numeric texts to their tag",
  },
  "C18": {
   "engine": "K+M",
